@@ -84,7 +84,9 @@ func scenC08(run *vlab.Run, sx, tmp string) {
 		var lns []net.Listener
 		closedPort := 0
 		seed := rng.Int63()
-		beh := func(a uint32, port int) int { return int((uint64(a)*2654435761 + uint64(port)*40503 + uint64(seed)) >> 7 % 4) }
+		beh := func(a uint32, port int) int {
+			return int((uint64(a)*2654435761 + uint64(port)*40503 + uint64(seed)) >> 7 % 4)
+		}
 		for k := 0; k < nports; k++ {
 			p := 20000 + rng.Intn(20000)
 			if k == nports-1 && nports > 1 && rng.Intn(2) == 0 {
@@ -108,103 +110,120 @@ func scenC08(run *vlab.Run, sx, tmp string) {
 			ps = append(ps, fmt.Sprint(p))
 		}
 		workers := []int{1, 3, 16, 100}[rng.Intn(4)]
-		args := []string{"socks", "--json", "-p", strings.Join(ps, ","), "-w", fmt.Sprint(workers), "-t", "1s", subnet}
+		args := []string{"socks", "--json", "-p", strings.Join(ps, ","), "-w", fmt.Sprint(workers), "-t", "3s", subnet}
 		run.Case(fmt.Sprintf("c08w%03d", i), args)
-		res := RunCase(sx, &CaseSpec{Args: args, Setup: loOnly, Sniff: []string{"lo"}, Timeout: 90 * time.Second})
-		for _, ln := range lns {
-			ln.Close()
-		}
-		run.Eval(1)
-		desc := map[string]interface{}{"argv": args, "closed_port": closedPort}
-		if !baseChecks(run, res, desc, true) {
-			continue
-		}
-		if res.Drops > 0 {
-			run.Inconclusive("sniffer drops on lo")
-			continue
-		}
-		// SYNs (no ACK) per destination
-		syn := map[string]int{}
-		for _, e := range res.Sniffed("lo") {
-			d := oracle.Decode(e.Data, oracle.LinkEthernet)
-			if d.TCP != nil && d.IP != nil && d.TCP.Flags&oracle.FlagSYN != 0 && d.TCP.Flags&oracle.FlagACK == 0 {
-				syn[fmt.Sprintf("%s:%d", oracle.IPString(d.IP.Dst), d.TCP.DstPort)]++
+		// a probe that times out against this monitor's own listeners (a starved machine) changes the expected
+		// lines and error records: everything but "too many" is judged on up to three runs of the scenario
+		for attempt := 0; attempt < 3; attempt++ {
+			final := attempt == 2
+			soft := false
+			res := RunCase(sx, &CaseSpec{Args: args, Setup: loOnly, Sniff: []string{"lo"}, Timeout: 120 * time.Second})
+			run.Eval(1)
+			desc := map[string]interface{}{"argv": args, "closed_port": closedPort}
+			if !baseChecks(run, res, desc, true) {
+				break
 			}
-		}
-		printed := map[string]int{}
-		for _, l := range res.Stdout {
-			var m struct {
-				IP   string `json:"ip"`
-				Port int    `json:"port"`
+			if res.Drops > 0 {
+				run.Inconclusive("sniffer drops on lo")
+				break
 			}
-			if json.Unmarshal([]byte(l), &m) != nil || !strings.HasSuffix(l, "\n") {
-				run.Violation("line-not-json", fmt.Sprintf("stdout line is not one JSON record: %.200q", l), desc)
-				continue
+			// SYNs (no ACK) per destination
+			syn := map[string]int{}
+			for _, e := range res.Sniffed("lo") {
+				d := oracle.Decode(e.Data, oracle.LinkEthernet)
+				if d.TCP != nil && d.IP != nil && d.TCP.Flags&oracle.FlagSYN != 0 && d.TCP.Flags&oracle.FlagACK == 0 {
+					syn[fmt.Sprintf("%s:%d", oracle.IPString(d.IP.Dst), d.TCP.DstPort)]++
+				}
 			}
-			printed[fmt.Sprintf("%s:%d", m.IP, m.Port)]++
-		}
-		nErrLines := 0
-		for _, l := range strings.Split(res.Stderr, "\n") {
-			if strings.Contains(l, `"level":"error"`) {
-				nErrLines++
+			printed := map[string]int{}
+			for _, l := range res.Stdout {
+				var m struct {
+					IP   string `json:"ip"`
+					Port int    `json:"port"`
+				}
+				if json.Unmarshal([]byte(l), &m) != nil || !strings.HasSuffix(l, "\n") {
+					run.Violation("line-not-json", fmt.Sprintf("stdout line is not one JSON record: %.200q", l), desc)
+					continue
+				}
+				printed[fmt.Sprintf("%s:%d", m.IP, m.Port)]++
 			}
-		}
-		okAll := true
-		wantErrs := 0
-		for a := base; a < base+size; a++ {
-			for _, p := range ports {
-				k := fmt.Sprintf("%s:%d", ipS(a), p)
-				if syn[k] != 1 {
-					run.Violation("connections-per-target", fmt.Sprintf("%s received %d connection attempts (exactly one expected; %d workers): %s", k, syn[k], workers, strings.Join(args, " ")), desc)
-					okAll = false
+			nErrLines := 0
+			for _, l := range strings.Split(res.Stderr, "\n") {
+				if strings.Contains(l, `"level":"error"`) {
+					nErrLines++
 				}
-				delete(syn, k)
-				b := -1
-				if p != closedPort {
-					b = beh(a, p)
-				}
-				wantLines := 0
-				if b == 0 {
-					wantLines = 1
-				}
-				if printed[k] != wantLines {
-					run.Violation("lines-per-target", fmt.Sprintf("%s (behaviour %d) printed %d times, expected %d: %s", k, b, printed[k], wantLines, strings.Join(args, " ")), desc)
-					okAll = false
-				}
-				delete(printed, k)
-				if b == -1 || b == 2 || b == 3 {
-					// refused / garbage (short read) / closed at once: a failed probe -> one error record
-					if b != 2 {
-						wantErrs++
+			}
+			okAll := true
+			wantErrs := 0
+			for a := base; a < base+size; a++ {
+				for _, p := range ports {
+					k := fmt.Sprintf("%s:%d", ipS(a), p)
+					if syn[k] == 0 && !final {
+						soft = true
+					} else if syn[k] != 1 {
+						run.Violation("connections-per-target", fmt.Sprintf("%s received %d connection attempts (exactly one expected; %d workers): %s", k, syn[k], workers, strings.Join(args, " ")), desc)
+						okAll = false
+					}
+					delete(syn, k)
+					b := -1
+					if p != closedPort {
+						b = beh(a, p)
+					}
+					wantLines := 0
+					if b == 0 {
+						wantLines = 1
+					}
+					if printed[k] < wantLines && !final {
+						soft = true
+					} else if printed[k] != wantLines {
+						run.Violation("lines-per-target", fmt.Sprintf("%s (behaviour %d) printed %d times, expected %d: %s", k, b, printed[k], wantLines, strings.Join(args, " ")), desc)
+						okAll = false
+					}
+					delete(printed, k)
+					if b == -1 || b == 2 || b == 3 {
+						// refused / garbage (short read) / closed at once: a failed probe -> one error record
+						if b != 2 {
+							wantErrs++
+						}
 					}
 				}
 			}
-		}
-		for k, c := range syn {
-			run.Violation("connection-outside-targets", fmt.Sprintf("%d connection attempts to %s, which is not a target: %s", c, k, strings.Join(args, " ")), desc)
-			okAll = false
-		}
-		for k := range printed {
-			run.Violation("record-outside-targets", fmt.Sprintf("record for %s, which is not a target", k), desc)
-			okAll = false
-		}
-		// error records: refused and closed-at-once probes fail for sure (garbage answers 2 full bytes: a clean negative)
-		if nErrLines != wantErrs {
-			if res.Stall > 100*time.Millisecond {
-				run.Inconclusive("error-record count differs but the monitor stalled")
-			} else {
-				run.Violation("error-records", fmt.Sprintf("%d probes failed for sure (refused or closed before answering), %d error records on stderr: %s", wantErrs, nErrLines, strings.Join(args, " ")), map[string]interface{}{"case": desc, "stderr_tail": tailStr(res.Stderr, 1500)})
+			for k, c := range syn {
+				run.Violation("connection-outside-targets", fmt.Sprintf("%d connection attempts to %s, which is not a target: %s", c, k, strings.Join(args, " ")), desc)
 				okAll = false
 			}
+			for k := range printed {
+				run.Violation("record-outside-targets", fmt.Sprintf("record for %s, which is not a target", k), desc)
+				okAll = false
+			}
+			// error records: refused and closed-at-once probes fail for sure (garbage answers 2 full bytes: a clean negative)
+			if nErrLines != wantErrs && !final {
+				soft = true
+			} else if nErrLines != wantErrs {
+				if res.Stall > 100*time.Millisecond {
+					run.Inconclusive("error-record count differs but the monitor stalled")
+				} else {
+					run.Violation("error-records", fmt.Sprintf("%d probes failed for sure (refused or closed before answering), %d error records on stderr: %s", wantErrs, nErrLines, strings.Join(args, " ")), map[string]interface{}{"case": desc, "stderr_tail": tailStr(res.Stderr, 1500)})
+					okAll = false
+				}
+			}
+			if soft {
+				run.Count("c08_wire_runs_retried", 1)
+				continue
+			}
+			if okAll {
+				run.Count("app_scans_ok", 1)
+			}
+			run.Count("c08_wire_runs", 1)
+			run.Count("app_targets", int64(int(size)*len(ports)))
+			run.Count("app_error_records", int64(nErrLines))
+			run.Count("app_workers:"+fmt.Sprint(workers), 1)
+			run.Distinct(strings.Join(args, " "))
+			break
 		}
-		if okAll {
-			run.Count("app_scans_ok", 1)
+		for _, ln := range lns {
+			ln.Close()
 		}
-		run.Count("c08_wire_runs", 1)
-		run.Count("app_targets", int64(int(size)*len(ports)))
-		run.Count("app_error_records", int64(nErrLines))
-		run.Count("app_workers:"+fmt.Sprint(workers), 1)
-		run.Distinct(strings.Join(args, " "))
 	}
 }
 
@@ -276,75 +295,91 @@ func scenC14(run *vlab.Run, sx, tmp string) {
 			continue
 		}
 		go srv.Serve(ln)
-		args := []string{"elastic", "--json", "-p", fmt.Sprint(port), "-w", fmt.Sprint(1 + rng.Intn(8)), "-t", "2s", subnet}
+		args := []string{"elastic", "--json", "-p", fmt.Sprint(port), "-w", fmt.Sprint(1 + rng.Intn(8)), "-t", "5s", subnet}
 		run.Case(fmt.Sprintf("c14w%03d", i), args)
-		res := RunCase(sx, &CaseSpec{Args: args, Setup: loOnly, Timeout: 90 * time.Second})
+		// a target that is not printed (its probe timed out) is an upper bound for sx and for this monitor's
+		// own HTTP server: judged on up to three runs
+		for attempt := 0; attempt < 3; attempt++ {
+			res := RunCase(sx, &CaseSpec{Args: args, Setup: loOnly, Timeout: 120 * time.Second})
+			run.Eval(1)
+			if !baseChecks(run, res, args, true) {
+				break
+			}
+			missing := false
+			size := uint32(1) << uint(32-bits)
+			seen := map[string]int{}
+			okAll := true
+			for _, l := range res.Stdout {
+				var m struct {
+					Scan    string                 `json:"scan"`
+					Proto   string                 `json:"proto"`
+					Host    string                 `json:"host"`
+					Info    map[string]interface{} `json:"info"`
+					Indexes map[string]interface{} `json:"indexes"`
+				}
+				body := strings.TrimSuffix(l, "\n")
+				if !strings.HasSuffix(l, "\n") || strings.ContainsAny(body, "\n\r") || json.Unmarshal([]byte(body), &m) != nil {
+					run.Violation("line-not-one-json-object", fmt.Sprintf("stdout line is not exactly one JSON object: %.300q", l), args)
+					okAll = false
+					continue
+				}
+				seen[m.Host]++
+				mu.Lock()
+				wantInfo, wantAl := infos[m.Host], aliases[m.Host]
+				mu.Unlock()
+				// what was served, as JSON decodes it
+				norm := func(v interface{}) interface{} {
+					b, _ := json.Marshal(v)
+					var out interface{}
+					json.Unmarshal(b, &out)
+					return out
+				}
+				if m.Scan != "elastic" || m.Proto != "http" {
+					run.Violation("record-fields", fmt.Sprintf("scan=%q proto=%q in %.200q", m.Scan, m.Proto, l), args)
+					okAll = false
+				}
+				if wantInfo == nil {
+					run.Violation("record-host", fmt.Sprintf("record for host %q, which served nothing", m.Host), args)
+					okAll = false
+					continue
+				}
+				if !reflect.DeepEqual(interface{}(m.Info), norm(wantInfo)) {
+					run.Violation("info-not-faithful", fmt.Sprintf("record of %s: info does not decode back to the served object: got %.300v want %.300v", m.Host, m.Info, wantInfo), args)
+					okAll = false
+				}
+				if m.Indexes == nil {
+					run.Count("records_without_index_list", 1) // the secondary request failed (timed out): allowed
+				} else if !reflect.DeepEqual(interface{}(m.Indexes), norm(wantAl)) {
+					run.Violation("indexes-not-faithful", fmt.Sprintf("record of %s: indexes do not decode back to the served object", m.Host), args)
+					okAll = false
+				}
+				run.Count("wire_lines_verified", 1)
+			}
+			for a := base; a < base+size; a++ {
+				k := fmt.Sprintf("%s:%d", ipS(a), port)
+				if seen[k] == 0 && attempt < 2 {
+					missing = true
+					continue
+				}
+				if seen[k] != 1 {
+					run.Violation("lines-per-target", fmt.Sprintf("%s printed %d times (it serves JSON info: once expected)", k, seen[k]), args)
+					okAll = false
+				}
+			}
+			if missing {
+				run.Count("c14_wire_runs_retried", 1)
+				continue
+			}
+			if okAll {
+				run.Count("elastic_runs_ok", 1)
+			}
+			run.Count("c14_wire_runs", 1)
+			run.Distinct(strings.Join(args, " "))
+			if run.WantSample() && len(res.Stdout) > 0 {
+				run.Sample(map[string]interface{}{"argv": strings.Join(args, " "), "first_line": tailStr(res.Stdout[0], 300)})
+			}
+			break
+		}
 		srv.Close()
-		run.Eval(1)
-		if !baseChecks(run, res, args, true) {
-			continue
-		}
-		size := uint32(1) << uint(32-bits)
-		seen := map[string]int{}
-		okAll := true
-		for _, l := range res.Stdout {
-			var m struct {
-				Scan    string                 `json:"scan"`
-				Proto   string                 `json:"proto"`
-				Host    string                 `json:"host"`
-				Info    map[string]interface{} `json:"info"`
-				Indexes map[string]interface{} `json:"indexes"`
-			}
-			body := strings.TrimSuffix(l, "\n")
-			if !strings.HasSuffix(l, "\n") || strings.ContainsAny(body, "\n\r") || json.Unmarshal([]byte(body), &m) != nil {
-				run.Violation("line-not-one-json-object", fmt.Sprintf("stdout line is not exactly one JSON object: %.300q", l), args)
-				okAll = false
-				continue
-			}
-			seen[m.Host]++
-			mu.Lock()
-			wantInfo, wantAl := infos[m.Host], aliases[m.Host]
-			mu.Unlock()
-			// what was served, as JSON decodes it
-			norm := func(v interface{}) interface{} {
-				b, _ := json.Marshal(v)
-				var out interface{}
-				json.Unmarshal(b, &out)
-				return out
-			}
-			if m.Scan != "elastic" || m.Proto != "http" {
-				run.Violation("record-fields", fmt.Sprintf("scan=%q proto=%q in %.200q", m.Scan, m.Proto, l), args)
-				okAll = false
-			}
-			if wantInfo == nil {
-				run.Violation("record-host", fmt.Sprintf("record for host %q, which served nothing", m.Host), args)
-				okAll = false
-				continue
-			}
-			if !reflect.DeepEqual(interface{}(m.Info), norm(wantInfo)) {
-				run.Violation("info-not-faithful", fmt.Sprintf("record of %s: info does not decode back to the served object: got %.300v want %.300v", m.Host, m.Info, wantInfo), args)
-				okAll = false
-			}
-			if !reflect.DeepEqual(interface{}(m.Indexes), norm(wantAl)) {
-				run.Violation("indexes-not-faithful", fmt.Sprintf("record of %s: indexes do not decode back to the served object", m.Host), args)
-				okAll = false
-			}
-			run.Count("wire_lines_verified", 1)
-		}
-		for a := base; a < base+size; a++ {
-			k := fmt.Sprintf("%s:%d", ipS(a), port)
-			if seen[k] != 1 {
-				run.Violation("lines-per-target", fmt.Sprintf("%s printed %d times (it serves JSON info: once expected)", k, seen[k]), args)
-				okAll = false
-			}
-		}
-		if okAll {
-			run.Count("elastic_runs_ok", 1)
-		}
-		run.Count("c14_wire_runs", 1)
-		run.Distinct(strings.Join(args, " "))
-		if run.WantSample() && len(res.Stdout) > 0 {
-			run.Sample(map[string]interface{}{"argv": strings.Join(args, " "), "first_line": tailStr(res.Stdout[0], 300)})
-		}
 	}
 }
